@@ -60,6 +60,7 @@ def opD3 (L : Level) (vec : Bytes) (nilRecv : Bool) : String :=
   let head := s!"r={if e.isNone then "1" else "0"} e={errTag e}"
   if nilRecv && e.isSome then head
   else head ++ " " ++ dump3 L o ++ (if dump3 L o == dump3 L o then " q2=1" else " q2=0")
+    ++ " vq=" ++ (if L == .base then "-" else String.ofList ((levelsUpTo L).filter (· != L) |>.map fun _ => '1'))
     ++ (if e.isNone then flags3 L o else "")
 
 def dump2 (L : Level) (o : V2.Obj2) : String :=
@@ -94,6 +95,7 @@ def opD2 (L : Level) (vec : Bytes) (nilRecv : Bool) : String :=
   let head := s!"r={if e.isNone then "1" else "0"} e={errTag e}"
   if nilRecv && e.isSome then head
   else head ++ " " ++ dump2 L o ++ (if dump2 L o == dump2 L o then " q2=1" else " q2=0")
+    ++ " vq=" ++ (if L == .base then "-" else String.ofList ((levelsUpTo L).filter (· != L) |>.map fun _ => '1'))
     ++ (if e.isNone then flags2 L o else "")
 
 
